@@ -505,6 +505,9 @@ class ThreadPoolServer(Server):
             err_msg = "Failed to serve client for {}, caught exception".format(addrinfo)
             self.logger.exception(err_msg)
             sock.close()
+            # this client is gone: drop the entry accept() made for it (nothing else would, until
+            # the next successful accept clears the set)
+            self.clients.clear()
 
 
 class ForkingServer(Server):
